@@ -64,7 +64,23 @@ def run(prop, tier, seed, replay):
     # 3./4. correspondence + property oracle on the implementation
     if replay:
         return run_replay(prop, mod, ctx, replay)
-    mod.run(ctx)
+    try:
+        mod.run(ctx)
+    except core.InfraError:
+        raise
+    except Exception as e:
+        # an exception that escapes from the library under test where the harness expected a result (a call the harness does not guard because it cannot fail on
+        # the unchanged tree): that is the library's behaviour, not an infrastructure problem — the run stops here, what was found so far is reported, and the
+        # escape itself is a violation whose replay carries the traceback (the failing input is the one being evaluated: named by the innermost harness frame)
+        import traceback
+        tb = traceback.extract_tb(e.__traceback__)
+        repo_src = os.path.realpath(os.path.join(os.environ.get("POSE_REPO", "/repo"), "src"))
+        if not (tb and os.path.realpath(tb[-1].filename).startswith(repo_src)):
+            raise
+        harness_frame = next((f for f in reversed(tb) if "/harness/" in f.filename), None)
+        ctx.violation("the library raises where the check expects a result", {"harness_call": "%s:%s %s" % (os.path.basename(harness_frame.filename), harness_frame.lineno, harness_frame.line) if harness_frame else None},
+                      {"error": "%s: %s" % (type(e).__name__, str(e)[:200]), "raised_at": "%s:%s" % (os.path.relpath(tb[-1].filename, repo_src), tb[-1].lineno),
+                       "traceback": traceback.format_exc()[-1500:]}, True, signature={"clause": "escaped exception"})
 
     # 5. classify
     known = [k for k in core.load_known() if k.get("property") == prop and k.get("kind") == "finding"]
